@@ -817,6 +817,13 @@ class VSocket:
             return b""
         raise BlockingIOError(_errno.EAGAIN, _os.strerror(_errno.EAGAIN))
 
+    def recv_into(self, buffer, nbytes=0, flags=0):
+        mv = memoryview(buffer).cast("B")
+        n = nbytes or len(mv)
+        chunk = self.recv(min(n, len(mv)), flags)
+        mv[:len(chunk)] = chunk
+        return len(chunk)
+
     def send(self, data, flags=0):
         self._check_open()
         if self.state != "connected":
